@@ -47,6 +47,7 @@ class Machine:
         self.models, self.generic_models = world.models, world.generic_models
         self.solver = z3.Solver()
         self.solver.set("rlimit", timeout_ms * 20000)
+        self.solver.set("timeout", timeout_ms)           # wall-clock guard: some theory combinations ignore rlimit for a long time
         self.decisions = list(decisions or [])
         self.dpos = 0
         self.pending = []
@@ -396,6 +397,15 @@ class Machine:
         return self.models[model](self, *[self.zst(gens[i]) for i in pos])
 
     def eval_named_const(self, name, fr=None):
+        if name.startswith(("core::", "std::")):
+            import lib_core
+            v = lib_core.num_const(name)
+            if v is not None: return v
+            fc = {"core::f64::consts::PI": 3.141592653589793, "std::f64::consts::PI": 3.141592653589793, "core::f64::EPSILON": 2.220446049250313e-16,
+                  "std::f64::EPSILON": 2.220446049250313e-16, "core::f64::INFINITY": float("inf"), "core::f64::NAN": float("nan"),
+                  "core::f64::consts::FRAC_1_SQRT_2": 0.7071067811865476, "core::f64::consts::E": 2.718281828459045, "core::f64::MAX": 1.7976931348623157e308,
+                  "core::f64::consts::FRAC_PI_2": 1.5707963267948966, "core::f64::consts::TAU": 6.283185307179586}.get(name.strip().replace("<impl f64>::", ""))
+            if fc is not None: return fc
         n = self.resolve_item(name)
         if not n: raise Unsupported("named const " + name[:200])
         key = ("const", n)
@@ -691,6 +701,14 @@ class Machine:
             ty = s[1:j]
             meth = strip_generics(s[j + 3:])
             return f"{base_name(ty)}::{meth}", ty, None
+        if "<impl " in s:
+            # inherent method printed as `module::<impl Type>::method` (only at the top level of the path)
+            segs = split_top(s.replace("::", "\x00"), "\x00")
+            for i, seg in enumerate(segs[:-1]):
+                if seg.startswith("<impl ") and seg.endswith(">"):
+                    ty = seg[6:-1].replace("\x00", "::")
+                    if base_name(ty) in self.td.structs or base_name(ty) in self.td.enums:
+                        return f"{base_name(ty)}::{strip_generics(segs[i + 1].replace(chr(0), '::'))}", ty, None
         return strip_generics(s), None, None
 
     def call_value(self, f, args):
@@ -762,6 +780,9 @@ class Machine:
         n = self.mod.lookup(path)
         if n: return n
         p = path.strip()
+        if not p.startswith("<") and "<" in p:
+            n = self.mod.lookup(strip_generics(p))       # `f<generics>::{closure#0}` of a generic free function
+            if n: return n
         idx = self.world.impl_index()
         if p.startswith("<"):
             i = find_as(p)
@@ -791,7 +812,13 @@ class Machine:
                 rt = runtime_type(args[0])
                 if rt: c = idx.get((rt, trb, meth))
                 if c: tb = rt
-            if c: return self.mod.get(self.world.pick_impl(c, trait)), {"Self": tb}
+            if c is None:
+                # impl generated by a macro (`impl Trait for $ty`): all instances share one item name; pick by Self
+                for (t0, tr0, me0), names in idx.items():
+                    if tr0 == trb and me0 == meth and t0.startswith("$"):
+                        st = tb if (tb in self.td.structs or tb in self.td.enums) else (runtime_type(args[0]) if args else None)
+                        return self.mod.get_for_self(names[0], st), {"Self": st}
+            if c: return self.mod.get_for_self(self.world.pick_impl(c, trait), tb), {"Self": tb}
             # default method of a crate trait
             n = self.world.trait_default(trb, meth)
             if n:
